@@ -1,0 +1,57 @@
+//go:build verif
+
+package car
+
+// Exported wrappers around internal entry points that no public API reaches, for the external
+// verification harness (build tag "verif" only). Add-only: no existing code is touched.
+
+import (
+	"io"
+
+	blocks "github.com/ipfs/go-block-format"
+	"github.com/ipfs/go-cid"
+	"github.com/ipld/go-car/v2/internal/carv1"
+	internalio "github.com/ipld/go-car/v2/internal/io"
+)
+
+// VerifC02yReadHeaderAt calls carv1.ReadHeaderAt.
+func VerifC02yReadHeaderAt(at io.ReaderAt, maxReadBytes uint64) ([]cid.Cid, uint64, error) {
+	h, err := carv1.ReadHeaderAt(at, maxReadBytes)
+	if err != nil {
+		return nil, 0, err
+	}
+	return h.Roots, h.Version, nil
+}
+
+// VerifC02yCarV1ReadAllZeroLenAsEOF drives the internal CARv1 reader built by
+// NewCarReaderWithZeroLengthSectionAsEOF: constructor, then Next until an error.
+func VerifC02yCarV1ReadAllZeroLenAsEOF(r io.Reader) (roots []cid.Cid, blks []blocks.Block, openErr error, endErr error) {
+	cr, err := carv1.NewCarReaderWithZeroLengthSectionAsEOF(r)
+	if err != nil {
+		return nil, nil, err, nil
+	}
+	roots = cr.Header.Roots
+	for {
+		b, err := cr.Next()
+		if err != nil {
+			return roots, blks, nil, err
+		}
+		blks = append(blks, b)
+	}
+}
+
+// VerifC02yOffsetReadSeeker is what NewOffsetReadSeeker returns, with the two position accessors.
+type VerifC02yOffsetReadSeeker interface {
+	internalio.ReadSeekerAt
+	Offset() int64
+	Position() int64
+}
+
+// VerifC02yNewOffsetReadSeeker calls the internal NewOffsetReadSeeker.
+func VerifC02yNewOffsetReadSeeker(r io.ReaderAt, off int64) (VerifC02yOffsetReadSeeker, error) {
+	rs, err := internalio.NewOffsetReadSeeker(r, off)
+	if err != nil {
+		return nil, err
+	}
+	return rs.(VerifC02yOffsetReadSeeker), nil
+}
